@@ -381,6 +381,70 @@ example : s "backing_" ∈ fixedMembers { name := s "Foo" } ∧ s "Ok" ∈ fixed
     isDollar (s "backing_") = false ∧ s "x_" = s "x" ++ s "_" ∧ s "has_x" = s "has_" ++ s "x" := by
   decide
 
+/-- **The namespace-scope clash classes, for every scope of the shape** (open findings
+`type-named-like-generated-type-identifier`, `type-named-like-enum-helper`,
+`nested-type-named-like-size-constant`): an enum named `<S>View`, `<S>Writer`, `Generic<S>View`,
+`Make<S>View` or `MakeAligned<S>View` next to a structure `<S>`; an enum named like one of the four
+enum helpers (with traits); a type nested in a structure and named like the free function of one
+of the structure's constant virtual fields (`MaxSizeInBytes`, …). -/
+theorem C07_clash_scopes_namespace :
+    (∀ (sc : Scope) (n e : Name), n ∈ sc.structs → e ∈ sc.enums →
+      (e = n ++ s "View" ∨ e = n ++ s "Writer" ∨ e = s "Generic" ++ n ++ s "View" ∨
+       e = s "Make" ++ n ++ s "View" ∨ e = s "MakeAligned" ++ n ++ s "View") →
+      clean (namespaceScope sc) = false) ∧
+    (∀ (sc : Scope) (e : Name), sc.traits = true → e ∈ sc.enums →
+      (e = s "EnumTraits" ∨ e = s "TryToGetEnumFromName" ∨ e = s "TryToGetNameFromEnum" ∨ e = s "EnumIsKnown") →
+      clean (namespaceScope sc) = false) ∧
+    (∀ (sc : Scope) (st : Struct) (f : Field) (c e : Name), sc.owner = some st → f ∈ st.fields →
+      f.constant = true → cppFieldName f.name = some c → e ∈ sc.enums → e = c →
+      clean (namespaceScope sc) = false) := by
+  refine ⟨?_, ?_, ?_⟩
+  · intro sc n e hn he hcase
+    obtain ⟨i, hS⟩ := structDecl_mem sc n hn
+    have hE := enumDecl_mem sc e he { ident := e, what := "enum" } (by simp [enumDecls])
+    have key : ∀ d : Decl, d ∈ structDecls n i → d.ident = e → d.what ≠ "enum" →
+        clean (namespaceScope sc) = false := by
+      intro d hd hid hw
+      refine not_clean_of_mem _ d { ident := e, what := "enum" } (hS d hd) hE ?_
+        (incompatible_of_ident' _ _ hid rfl)
+      intro h; exact hw (by rw [h])
+    rcases hcase with rfl | rfl | rfl | rfl | rfl
+    · exact key { ident := n ++ s "View", what := "View alias" } (by simp [structDecls]) rfl (by simp)
+    · exact key { ident := n ++ s "Writer", what := "Writer alias" } (by simp [structDecls]) rfl (by simp)
+    · exact key { ident := s "Generic" ++ n ++ s "View", what := "view class template" } (by simp [structDecls]) rfl (by simp)
+    · exact key { ident := s "Make" ++ n ++ s "View", group := some (100 + i), what := "Make…View" } (by simp [structDecls]) rfl (by simp)
+    · exact key { ident := s "MakeAligned" ++ n ++ s "View", what := "MakeAligned…View" } (by simp [structDecls]) rfl (by simp)
+  · intro sc e ht he hcase
+    have hE := enumDecl_mem sc e he
+    rw [ht] at hE
+    have hEnum := hE { ident := e, what := "enum" } (by simp [enumDecls])
+    have key : ∀ d : Decl, d ∈ enumDecls e true → d.ident = e → d.what ≠ "enum" →
+        clean (namespaceScope sc) = false := by
+      intro d hd hid hw
+      refine not_clean_of_mem _ d { ident := e, what := "enum" } (hE d hd) hEnum ?_
+        (incompatible_of_ident' _ _ hid rfl)
+      intro h; exact hw (by rw [h])
+    rcases hcase with rfl | rfl | rfl | rfl
+    · exact key { ident := s "EnumTraits", group := some 1, what := "EnumTraits" } (by simp [enumDecls]) rfl (by simp)
+    · exact key { ident := s "TryToGetEnumFromName", group := some 2, what := "helper" } (by simp [enumDecls]) rfl (by simp)
+    · exact key { ident := s "TryToGetNameFromEnum", group := some 3, what := "helper" } (by simp [enumDecls]) rfl (by simp)
+    · exact key { ident := s "EnumIsKnown", group := some 4, what := "helper" } (by simp [enumDecls]) rfl (by simp)
+  · intro sc st f c e ho hf hc hcpp he hec
+    subst hec
+    have hEnum := enumDecl_mem sc e he { ident := e, what := "enum" } (by simp [enumDecls])
+    have hF : ({ ident := e, what := "constant function" } : Decl) ∈ namespaceScope sc := by
+      unfold namespaceScope
+      refine List.mem_append_right _ ?_
+      rw [ho]
+      refine List.mem_flatMap.mpr ⟨f, hf, ?_⟩
+      simp [hc, hcpp]
+    refine not_clean_of_mem _ _ _ hEnum hF ?_ (incompatible_of_ident _ _ rfl rfl)
+    intro h
+    have := congrArg Decl.what h
+    simp at this
+
+example : s "BarView" = s "Bar" ++ s "View" ∧ cppFieldName (s "$max_size_in_bytes") = some (s "MaxSizeInBytes") := by decide
+
 /-- Non-vacuity: an ordinary structure is clean, and meets the hypotheses of
 `C07_names_distinct_partial`. -/
 example :
